@@ -208,6 +208,46 @@ def run(ctx, report):
             R3.violation(inst, 'implicit:%s' % lst, 'implicit operands of %s are %s by the printer but %s by the assembler'
                          % (lst, 'dropped' if in_str else 'not dropped', 're-added' if in_na else 'not re-added'), where(arch, na))
 
+    # operand-discarding special cases must not capture the SSE forms of a homonymous mnemonic (movsd, cmpsd)
+    hash_ = E['mnemo_mmx_hash']
+    n_homonym = 0
+    for st in na.body:
+        if not (isinstance(st, ast.If) and any(isinstance(x, ast.Assign) and isinstance(x.targets[0], ast.Subscript) and u(x.targets[0].value) == 'args'
+                                               and isinstance(x.value, ast.List) and not x.value.elts for x in st.body)):
+            continue
+        lists = [n.comparators[0] for n in ast.walk(st.test) if isinstance(n, ast.Compare) and u(n.left) == 'name' and isinstance(n.ops[0], ast.In)]
+        if not lists:
+            continue
+        try:
+            names = list(Evaluator(dict(E, x86_afs=afs)).ev(lists[0]))
+        except NotConst as e:
+            raise AnalysisError('normalize_args: name list %s not evaluable: %s' % (u(lists[0]), e))
+        for nm in names:
+            if nm not in hash_:
+                continue
+            rown = hash_[nm]
+            for opc, mods, row in X.lookup.get(rown, []):
+                nops = 2 + sum(1 for d in row.rm if d in (afs.u08, E['imm']))
+                for esz in (afs.xmm, afs.f64, afs.f32):
+                    ops = [{afs.size: afs.xmm, afs.ad: False}, {afs.size: esz, afs.ad: esz != afs.xmm}]
+                    if mods.get(E['sw']):
+                        ops.reverse()
+                    ops += [{afs.imm: 0, afs.size: afs.u08, afs.ad: False}] * (nops - 2)
+                    n_homonym += 1
+                    inst = 'homonym %s %s (%s)' % (nm, row.key(), ','.join(str(o[afs.size]) for o in ops))
+                    try:
+                        taken = Evaluator(dict(E, x86_afs=afs)).ev(st.test, {'name': nm, 'args': ops})
+                    except NotConst as e:
+                        raise AnalysisError('normalize_args: guard %s not evaluable: %s' % (norm(st.test)[:60], e))
+                    if taken:
+                        R3.violation(inst, 'homonym:%s:%s' % (nm, ','.join(str(o[afs.size]) for o in ops)), 'normalize_args discards the operands of the SSE instruction %s (%s) because it shares its name with a '
+                                     'string instruction: guard `%s`' % (nm, ','.join(str(o[afs.size]) for o in ops), norm(st.test)[:90]), where(arch, st),
+                                     witness="asm('movsd QWORD PTR [eax], xmm1') == ['a5']")
+                    else:
+                        R3.ok(inst, sample='%s with operands (%s) keeps its operands' % (nm, ','.join(str(o[afs.size]) for o in ops)))
+    if n_homonym < 4:
+        raise AnalysisError('expected the movsd/cmpsd homonym forms, examined %d' % n_homonym)
+
     R4 = report.rule('C03.D4', 'the operand renderer emits displacement, symbol and segment exactly once on every path', floor=6)
     from ..linear import Linear
     branches = {}
@@ -240,6 +280,7 @@ def run(ctx, report):
 
 
 MUTANTS = [
+    ('movsd-store-string', 'miasmx/arch/ia32_arch.py', "                and args[0][x86_afs.size] != x86_afs.xmm \\\n                and args[1][x86_afs.size] != x86_afs.xmm:", "                and args[0][x86_afs.size] != x86_afs.xmm:", 'C03.D3'),
     ('disp-twice', 'miasmx/arch/ia32_arch.py', "                        address[0] = add_imm_to_string(\"\", immediate, imm_size)\n                        immediate = 0\n", "                        address[0] = add_imm_to_string(\"\", immediate, imm_size)\n", 'C03.D4'),
     ('symbol-twice', 'miasmx/arch/ia32_arch.py', "                address += ' + ' + symbol\n                symbol = ''\n", "                address += ' + ' + symbol\n", 'C03.D4'),
     ('no-mm-lexicon', 'miasmx/core/parse_ad.py', "for name in x86_afs.reg_mm:\n    registers[name] = x86_afs.mm\n", "", 'C03.D1'),
